@@ -7,6 +7,7 @@ import (
 	"strconv"
 	"strings"
 	"time"
+	_ "time/tzdata"
 
 	"github.com/elastic/go-libaudit/v2/auparse"
 
@@ -306,6 +307,19 @@ func checkSuccess(c *enumx.Ctx, h header) {
 			}
 			f.Set(reflect.Zero(f.Type()))
 		}
+		// the same instant in another representation: the exported Timestamp re-zoned by the caller (display code does
+		// that) to fixed and named zones - offset zero but not UTC, fractional-hour, +14h, the process's local zone:
+		// @timestamp is the header's instant in UTC
+		orig := m.Timestamp
+		for _, loc := range zones() {
+			m.Timestamp = orig.In(loc)
+			if g, _ := m.ToMapStr()["@timestamp"].(string); g != wantKeys["@timestamp"] {
+				c.Report("C04 tomapstr-rezoned-timestamp", fmt.Sprintf("with Timestamp re-zoned to %v (same instant), ToMapStr()[@timestamp] = %q, want %q from the header of %q", loc, g, wantKeys["@timestamp"], line), nil)
+				ok = false
+				break
+			}
+		}
+		m.Timestamp = orig
 		// "always": also after the caller has post-processed the map it was given (dropped raw_msg,
 		// renamed @timestamp, turned the sequence into a number) - the next ToMapStr starts from the header
 		delete(ms2, "raw_msg")
@@ -323,6 +337,20 @@ func checkSuccess(c *enumx.Ctx, h header) {
 			c.Nontrivial()
 		}
 	})
+}
+
+var zoneList []*time.Location
+
+func zones() []*time.Location {
+	if zoneList == nil {
+		zoneList = []*time.Location{time.UTC, time.Local, time.FixedZone("GMT", 0), time.FixedZone("", 0), time.FixedZone("UTC", 0), time.FixedZone("CET", 3600), time.FixedZone("X", -11*3600), time.FixedZone("Y", 1), time.FixedZone("Z", -1)}
+		for _, n := range []string{"Europe/London", "Europe/Lisbon", "Africa/Abidjan", "Atlantic/Reykjavik", "Etc/GMT", "Etc/UCT", "America/New_York", "Asia/Kolkata", "Asia/Kathmandu", "Pacific/Kiritimati", "Pacific/Pago_Pago", "Australia/Lord_Howe"} {
+			if l, err := time.LoadLocation(n); err == nil {
+				zoneList = append(zoneList, l)
+			}
+		}
+	}
+	return zoneList
 }
 
 func typeSpellings(t uint16) []string {
